@@ -85,6 +85,7 @@ def main():
             print(p, "exit", rc, "violations", len(viol), viol[:1])
     finally:
         sh("git -C %s checkout -- ." % REPO)
+        sh("python3 %s" % os.path.join(ROOT, "tools", "gen_tables.py"))
     # restore evidence of the unchanged tree for the checks we disturbed
     meta["checks"] = results
     meta["detected_by"] = [p for p, r in results.items() if r["exit"] != 0]
